@@ -150,6 +150,9 @@ func generate(h *hist, r *lib.Rand, idx int) {
 		if longRun {
 			roll = r.Intn(72)
 		}
+		if realSlash && r.Chance(12) {
+			roll = 99 // more block boundaries: the end blocker slashes oracles that did not confirm an oracle set in time
+		}
 		switch {
 		case roll < 66: // ---- vote ----
 			var id int
@@ -332,7 +335,8 @@ func generate(h *hist, r *lib.Rand, idx int) {
 		default: // ---- a block boundary: the real end blocker (slashing of non-confirming oracles, oracle set request) ----
 			var conf []int
 			for _, i := range online {
-				if !realSlash || r.Chance(75) {
+				// in the real-slash histories about a third of the oracles never confirm oracle sets
+				if !realSlash || hash2(uint64(h.seed)+99, uint64(i))%3 != 0 {
 					conf = append(conf, i)
 				}
 			}
